@@ -541,12 +541,43 @@ def check(facts, rep, tier, cfg):
                     "stalls before the upgrade (TLS handshake, connect) is waited for without bound, so the client neither retries nor gives up")
     if "client" in crate.features:
         rep.floor("C19.R9", "handshake drivers", k9, 1)
+    from an import inexact_steps as _ix12, nested_bodies as _nb12, logical_root as _lr12
+    # ---- R13 the wait before a retry is the back-off generator's delay itself
+    rep.rule("C19.R13", "the client waits exactly the delay the back-off generator produced before the next attempt: the duration of the timer in "
+                        "the retry loop is the value returned by Backoff::advance() through moves only (not that value minus the time the failed "
+                        "attempt took, a fraction or a clamp of it) - min(200 ms x 2^k, max_retry_interval) is otherwise not what is waited")
+    k13 = 0
+    for b in crate.bodies:
+        if "/src/client/" not in b.file or "::tests::" in b.path:
+            continue
+        if not any(callee(t) and callee(t)["name"] == "advance" and "Backoff" in callee(t)["path"] for _, t in b.calls()):
+            continue
+        tr13 = None
+        for bi, t in b.calls():
+            c = callee(t)
+            if not (c and c["name"] in ("sleep", "timeout", "sleep_until", "timeout_at") and "time" in c["path"] and t["args"]):
+                continue
+            tr13 = tr13 or Tracer(facts, b)
+            arg = tr13.operand(t["args"][0])
+            if not any(x.kind == "call" and x[6] == "advance" for x in walk(arg)):
+                continue
+            k13 += 1
+            rep.analysed(b)
+            w13 = "%s (%s)" % (loc_str(t["loc"]), b.path)
+            st13 = _ix12(arg, lambda y: y.kind == "call" and y[6] == "advance", None)
+            if st13:
+                rep.bad("C19.R13", "retry-wait-is-backoff-delay", w13,
+                        "the wait before the next attempt is computed from the back-off delay (`%s`), not the delay itself: after a slow failure "
+                        "(stalled handshake, connection that lived for a while) the client reconnects sooner than min(200 ms x 2^k, max)" % st13[0])
+            else:
+                rep.ok("C19.R13", "retry-wait-is-backoff-delay", w13, "wait = Backoff::advance()")
+    if "client" in crate.features:
+        rep.floor("C19.R13", "retry waits driven by the back-off generator", k13, 1)
     # ---- R12 every attempt to open the stream gets the whole configured timeout
     rep.rule("C19.R12", "a stream request is given the configured channel_timeout on EVERY connection it is tried on: the timer raced against "
                         "Multiplexor::new_stream_channel is `channel_timeout.sleep()` of the configured value itself (parameter / ClientArgs field "
                         "through moves only), not a remainder computed from the age of the request - a parked request would otherwise time out at "
                         "once on every later connection and never be served")
-    from an import inexact_steps as _ix12, nested_bodies as _nb12, logical_root as _lr12
     k12 = 0
     for b in crate.bodies:
         if "/src/client/" not in b.file or "::tests::" in b.path:
